@@ -150,3 +150,67 @@ def _sanitise(wf: Dict[str, Any]):
         # an aggregating component without any replicated producer is legal (e.g. replication switched off):
         # keep it, it simply behaves like a single consumer that only shuts down with a shut-down input
     return wf
+
+
+# --------------------------------------------------------------------------- DoWhile family (runtime slice)
+
+def gen_dowhile(rng: random.Random, max_iter: int = 3) -> Dict[str, Any]:
+    """A small DoWhile package: src -> loop{work -> cond} -> after, with ground truth by construction.
+    K further iterations are instantiated (cond prints True K times, then False)."""
+    K = rng.randint(0, max_iter)
+    S = rng.choice([0, 1])                      # stage the loop is imported to
+    after_stage = S + rng.choice([0, 1])
+    carried = rng.random() < 0.6                # loop-carried binding: work_k consumes work_{k-1}
+    two_body = rng.random() < 0.4               # an extra body component in the loop
+    be = "simulator"
+
+    def comp(name, stage, refs):
+        return {"name": name, "stage": stage, "command": {"executable": "ls", "arguments": "-d " + (" ".join(refs) or ".")},
+                "references": list(refs), "resourceManager": {"config": {"backend": be}}}
+    main = [comp("src", 0, [])]
+    if S == 1:
+        main.append(comp("mid", 1, ["stage0.src:ref"]))
+    main.append({"name": "looper", "stage": S, "$import": "dowhile.yaml", "bindings": {"inp": "stage0.src:ref"}})
+    main.append(comp("after", after_stage, ["stage%d.work:ref" % S]))
+    body = [comp("work", 0, ["inp:ref"])]
+    if two_body:
+        body.append(comp("extra", 0, ["work:ref"]))
+    body.append(comp("cond", 0, ["work:ref"]))
+    for b in body:
+        del b["stage"]
+    dw = {"type": "DoWhile", "inputBindings": {"inp": {"type": "ref"}},
+          "loopBindings": {"inp": "stage0.work:ref"} if carried else {}, "condition": "cond:output", "components": body}
+    # exit script
+    fail_at = None
+    r = rng.random()
+    if r < 0.2:
+        fail_at = rng.randint(0, K)
+    comps: Dict[str, List[Dict[str, Any]]] = {}
+    for k in range(K + 1):
+        comps["stage%d.%d#cond" % (S, k)] = [{"stdout": "True" if k < K else "False", "duration": rng.choice([0.5, 1.0])}]
+        comps["stage%d.%d#work" % (S, k)] = [{"reason": "Success", "duration": rng.choice([0.5, 1.0, 2.0])}]
+    if fail_at is not None:
+        comps["stage%d.%d#work" % (S, fail_at)] = [{"reason": "KnownIssue", "duration": 1.0}]
+    script = {"default": {"reason": "Success", "duration": 1.0, "files": ["out.dat"]}, "components": comps}
+    # expected nodes / predecessors
+    nodes: Dict[str, Dict[str, Any]] = {"stage0.src": {"stage": 0, "preds": [], "base": "src"}}
+    if S == 1:
+        nodes["stage1.mid"] = {"stage": 1, "preds": ["stage0.src"], "base": "mid"}
+    last = K if fail_at is None else fail_at
+    for k in range(last + 1):
+        w = "stage%d.%d#work" % (S, k)
+        nodes[w] = {"stage": S, "preds": ["stage%d.%d#work" % (S, k - 1)] if (carried and k > 0) else ["stage0.src"],
+                    "base": "work"}
+        if two_body:
+            nodes["stage%d.%d#extra" % (S, k)] = {"stage": S, "preds": [w], "base": "extra"}
+        nodes["stage%d.%d#cond" % (S, k)] = {"stage": S, "preds": [w], "base": "cond"}
+    nodes["stage%d.after" % after_stage] = {"stage": after_stage, "base": "after",
+                                            "preds": ["stage%d.%d#work" % (S, k) for k in range(last + 1)]}
+    for nd in nodes.values():
+        nd.setdefault("repeat", None)
+        nd.setdefault("aggregate", False)
+        nd.setdefault("shutdownOn", [])
+        nd.setdefault("pred_replicated", {})
+    return {"kind": "dowhile", "main": yaml.safe_dump({"components": main}, sort_keys=False),
+            "dw": yaml.safe_dump(dw, sort_keys=False), "script": script, "nodes": nodes, "K": K, "fail_at": fail_at,
+            "loop_stage": S, "after_stage": after_stage, "carried": carried}
